@@ -3,10 +3,13 @@
 package discovery
 
 // C20 correspondence harness: drives the REAL AuthenticatedGossiper wired to
-// the REAL graph.Builder on a real graph database (bbolt; sqlite with
-// -tags test_db_sqlite) and a programmable chain backend.  Every message is a
-// really signed lnwire message (or a field-/byte-level corruption of one) and
-// goes through ProcessRemoteAnnouncement.  After each message the harness
+// the REAL, started graph.Builder on a real graph database (bbolt; sqlite with
+// -tags test_db_sqlite) and a programmable chain backend / chain view.  Every
+// message is a really signed lnwire message (or a field-/byte-level corruption
+// of one) and goes through ProcessRemoteAnnouncement; "history" cases interleave
+// them with graph maintenance events on the real Builder and store (blocks
+// connected / re-orged out through the chain view, DeleteChannelEdges with and
+// without zombie marking, PruneGraphNodes, restarts).  After each message the harness
 // records the error from the returned future, the graph contents and (at the
 // end of the case) the exact multiset of messages handed to cfg.Broadcast.
 //
@@ -76,10 +79,32 @@ type vChain struct {
 	best   int32
 	blocks map[int64]*vBlock
 	utxo   map[wire.OutPoint]int
+	// funding blocks disconnected by a re-org (may be mined again)
+	orphans map[int64]*vBlock
+	// what the chain view reports for a block (spends of watched outputs)
+	filtered map[chainhash.Hash]*chainview.FilteredBlock
+	gen      int
 }
 
+// GetBestBlock: the real, moving tip.
 func (c *vChain) GetBestBlock() (*chainhash.Hash, int32, error) {
-	return &chainhash.Hash{}, c.best, nil
+	c.mu.Lock()
+	defer c.mu.Unlock()
+	h := vBlockHash(int64(c.best))
+	if b, ok := c.blocks[int64(c.best)]; ok {
+		h = b.hash
+	}
+	return &h, c.best, nil
+}
+
+// vBlockHash: hash of the original (never re-orged) block of a height; the
+// same whether or not the harness has put transactions into that block yet.
+func vBlockHash(h int64) chainhash.Hash {
+	var hh chainhash.Hash
+	hh[0] = byte(h)
+	hh[1] = byte(h >> 8)
+	hh[31] = 0x77
+	return hh
 }
 
 func (c *vChain) GetBlockHash(h int64) (*chainhash.Hash, error) {
@@ -142,16 +167,32 @@ func (c *vChain) GetUtxo(op *wire.OutPoint, _ []byte, _ uint32,
 	return nil, errors.New("utxo unknown to harness chain")
 }
 
-type vChainView struct{}
-
-func (vChainView) FilteredBlocks() <-chan *chainview.FilteredBlock     { return nil }
-func (vChainView) DisconnectedBlocks() <-chan *chainview.FilteredBlock { return nil }
-func (vChainView) UpdateFilter([]graphdb.EdgePoint, uint32) error      { return nil }
-func (vChainView) FilterBlock(*chainhash.Hash) (*chainview.FilteredBlock, error) {
-	return nil, errors.New("not implemented")
+// vChainView hands connected / disconnected blocks to the Builder's
+// networkHandler, exactly as a chainview.FilteredChainView would.
+type vChainView struct {
+	chain  *vChain
+	newB   chan *chainview.FilteredBlock
+	staleB chan *chainview.FilteredBlock
 }
-func (vChainView) Start() error { return nil }
-func (vChainView) Stop() error  { return nil }
+
+func newVChainView(c *vChain) *vChainView {
+	return &vChainView{chain: c, newB: make(chan *chainview.FilteredBlock),
+		staleB: make(chan *chainview.FilteredBlock)}
+}
+
+func (v *vChainView) FilteredBlocks() <-chan *chainview.FilteredBlock     { return v.newB }
+func (v *vChainView) DisconnectedBlocks() <-chan *chainview.FilteredBlock { return v.staleB }
+func (v *vChainView) UpdateFilter([]graphdb.EdgePoint, uint32) error      { return nil }
+func (v *vChainView) FilterBlock(h *chainhash.Hash) (*chainview.FilteredBlock, error) {
+	v.chain.mu.Lock()
+	defer v.chain.mu.Unlock()
+	if fb, ok := v.chain.filtered[*h]; ok {
+		return fb, nil
+	}
+	return nil, errors.New("block unknown to harness chain view")
+}
+func (v *vChainView) Start() error { return nil }
+func (v *vChainView) Stop() error  { return nil }
 
 // ---------------------------------------------------------------------------
 // id registry (keys, signatures, digests, scripts, opaque blobs -> small ints)
@@ -204,6 +245,7 @@ type vFix struct {
 	db       *graphdb.ChannelGraph
 	vg       *graphdb.VersionedGraph
 	builder  *graph.Builder
+	view     *vChainView
 	chain    *vChain
 	closer   *mockScidCloser
 	selfPriv *btcec.PrivateKey
@@ -281,11 +323,12 @@ func (f *vFix) start(first bool) {
 	}
 
 	notifier := newMockNotifier()
+	f.view = newVChainView(f.chain)
 	f.builder, err = graph.NewBuilder(&graph.Config{
 		SelfNode:            selfPub,
 		Graph:               f.db,
 		Chain:               f.chain,
-		ChainView:           vChainView{},
+		ChainView:           f.view,
 		Notifier:            notifier,
 		ChannelPruneExpiry:  vPruneExpiry,
 		GraphPruneInterval:  time.Hour * 1000,
@@ -295,7 +338,12 @@ func (f *vFix) start(first bool) {
 	if err != nil {
 		t.Fatalf("builder: %v", err)
 	}
-
+	// The Builder runs for real: Start syncs the graph with the chain tip and
+	// sweeps unconnected nodes (PruneGraphNodes), its networkHandler prunes the
+	// graph on every connected / disconnected block.
+	if err := f.builder.Start(); err != nil {
+		t.Fatalf("builder start: %v", err)
+	}
 
 	f.g = New(Config{
 		ChanSeries: newMockChannelGraphTimeSeries(
@@ -372,9 +420,11 @@ func vNewFix(t *testing.T, r *vrng) *vFix {
 		f.sentPriv[i], _ = btcec.PrivKeyFromBytes(r.bytes(32))
 	}
 	f.chain = &vChain{
-		best:   vBestHeight,
-		blocks: map[int64]*vBlock{},
-		utxo:   map[wire.OutPoint]int{},
+		best:     vBestHeight,
+		blocks:   map[int64]*vBlock{},
+		utxo:     map[wire.OutPoint]int{},
+		orphans:  map[int64]*vBlock{},
+		filtered: map[chainhash.Hash]*chainview.FilteredBlock{},
 	}
 	f.backend = vNewBackend(t)
 	// small store caches in most cases: evictions then happen without restarts
@@ -399,6 +449,7 @@ func vNewFix(t *testing.T, r *vrng) *vFix {
 	f.start(true)
 	t.Cleanup(func() {
 		f.g.Stop()
+		_ = f.builder.Stop()
 		_ = f.db.Stop()
 	})
 	ctx := context.Background()
@@ -450,10 +501,7 @@ func (f *vFix) addBlock(h int64, kind int, outs [][]*wire.TxOut, utxoSt map[[2]i
 			f.chain.utxo[wire.OutPoint{Hash: tx.TxHash(), Index: uint32(j)}] = st
 		}
 	}
-	var hh chainhash.Hash
-	hh[0] = byte(h)
-	hh[1] = byte(h >> 8)
-	hh[31] = 0x77
+	hh := vBlockHash(h)
 	f.chain.mu.Lock()
 	f.chain.blocks[h] = &vBlock{kind: kind, hash: hh, block: blk}
 	f.chain.mu.Unlock()
@@ -603,12 +651,102 @@ func (f *vFix) flush() {
 func (f *vFix) restart() {
 	f.flush()
 	f.g.Stop()
+	if err := f.builder.Stop(); err != nil {
+		f.t.Fatalf("builder stop: %v", err)
+	}
 	if err := f.db.Stop(); err != nil {
 		f.t.Fatalf("graph stop: %v", err)
 	}
 	f.restarts++
 	f.start(false)
 	f.flush()
+}
+
+// ---------------------------------------------------------------------------
+// graph maintenance events (no gossip message involved): blocks connected to /
+// disconnected from the Builder's chain view, explicit channel deletions (what
+// abandonchannel, a local channel close and Builder.pruneZombieChans do) and
+// the unconnected-node sweep.
+
+// barrier returns once the Builder's networkHandler has finished the event
+// handed to it before: the handler is a single goroutine reading unbuffered
+// channels, so it can only accept this (ignored, already-processed height)
+// block after the previous event was fully applied.
+func (f *vFix) barrier() {
+	select {
+	case f.view.newB <- &chainview.FilteredBlock{Height: 0}:
+	case <-time.After(30 * time.Second):
+		f.t.Fatalf("builder network handler stuck")
+	}
+}
+
+// connectBlock mines the block at tip+1.  spent: outpoints spent by it (as the
+// filtered chain view reports them); remine: if the funding block that a
+// re-org removed from this height exists, the new block carries the same
+// transactions again.
+func (f *vFix) connectBlock(spent []wire.OutPoint, remine bool) (int64, bool) {
+	ch := f.chain
+	ch.mu.Lock()
+	h := int64(ch.best) + 1
+	ch.gen++
+	var hash chainhash.Hash
+	hash[0], hash[1] = byte(h), byte(h>>8)
+	hash[29], hash[30], hash[31] = byte(ch.gen>>8), byte(ch.gen), 0x78
+	remined := false
+	if ob, ok := ch.orphans[h]; ok && remine {
+		ob.hash = hash
+		ch.blocks[h] = ob
+		delete(ch.orphans, h)
+		remined = true
+	} else {
+		blk := &wire.MsgBlock{}
+		dummy := wire.NewMsgTx(2)
+		dummy.LockTime = uint32(h)<<8 + uint32(ch.gen)
+		dummy.TxOut = append(dummy.TxOut, &wire.TxOut{Value: 1, PkScript: []byte{0x51}})
+		blk.Transactions = append(blk.Transactions, dummy)
+		ch.blocks[h] = &vBlock{kind: vBlkPresent, hash: hash, block: blk}
+	}
+	fb := &chainview.FilteredBlock{Hash: hash, Height: uint32(h)}
+	if len(spent) > 0 {
+		tx := wire.NewMsgTx(2)
+		for i := range spent {
+			ch.utxo[spent[i]] = vUtxoSpent
+			tx.AddTxIn(wire.NewTxIn(&spent[i], nil, nil))
+		}
+		fb.Transactions = []*wire.MsgTx{tx}
+	}
+	ch.filtered[hash] = fb
+	ch.best = int32(h)
+	ch.mu.Unlock()
+	select {
+	case f.view.newB <- fb:
+	case <-time.After(30 * time.Second):
+		f.t.Fatalf("builder network handler stuck")
+	}
+	f.barrier()
+	return h, remined
+}
+
+// disconnectTip re-orgs the tip block out of the chain.
+func (f *vFix) disconnectTip() int64 {
+	ch := f.chain
+	ch.mu.Lock()
+	h := int64(ch.best)
+	if b, ok := ch.blocks[h]; ok {
+		if len(b.block.Transactions) > 1 {
+			ch.orphans[h] = b
+		}
+		delete(ch.blocks, h)
+	}
+	ch.best = int32(h - 1)
+	ch.mu.Unlock()
+	select {
+	case f.view.staleB <- &chainview.FilteredBlock{Height: uint32(h)}:
+	case <-time.After(30 * time.Second):
+		f.t.Fatalf("builder network handler stuck")
+	}
+	f.barrier()
+	return h
 }
 
 // ---------------------------------------------------------------------------
@@ -955,22 +1093,23 @@ func (c *vCase) snapshot() map[string]any {
 		f.t.Fatalf("ForEachNode: %v", err)
 	}
 	sort.Slice(nodes, func(i, j int) bool { return nodes[i][0].(int) < nodes[j][0].(int) })
-	var zombies []uint64
+	// zombie index entries with the node keys stored for them: [scid, key1, key2]
+	var zombies [][]any
 	var closed []uint64
 	for s := range c.scids {
-		z, _, _, err := f.vg.IsZombieEdge(ctx, s)
+		z, k1, k2, err := f.vg.IsZombieEdge(ctx, s)
 		if err != nil {
 			f.t.Fatalf("IsZombieEdge: %v", err)
 		}
 		if z {
-			zombies = append(zombies, s)
+			zombies = append(zombies, []any{s, c.kid(k1), c.kid(k2)})
 		}
 		cl, _ := f.closer.IsClosedScid(ctx, lnwire.NewShortChanIDFromInt(s))
 		if cl {
 			closed = append(closed, s)
 		}
 	}
-	sort.Slice(zombies, func(i, j int) bool { return zombies[i] < zombies[j] })
+	sort.Slice(zombies, func(i, j int) bool { return zombies[i][0].(uint64) < zombies[j][0].(uint64) })
 	sort.Slice(closed, func(i, j int) bool { return closed[i] < closed[j] })
 	if chans == nil {
 		chans = [][]any{}
@@ -979,12 +1118,21 @@ func (c *vCase) snapshot() map[string]any {
 		nodes = [][]any{}
 	}
 	if zombies == nil {
-		zombies = []uint64{}
+		zombies = [][]any{}
 	}
 	if closed == nil {
 		closed = []uint64{}
 	}
 	return map[string]any{"chans": chans, "nodes": nodes, "zombies": zombies, "closed": closed}
+}
+
+// gossipBest: the best block height the gossiper currently works with (read
+// from the Builder's chain at start-up; block epochs are not delivered to the
+// gossiper in this harness, so it only moves at a restart).
+func (f *vFix) gossipBest() uint32 {
+	f.g.Lock()
+	defer f.g.Unlock()
+	return f.g.bestHeight
 }
 
 func (f *vFix) banScore(pk [33]byte) uint64 {
@@ -1006,31 +1154,62 @@ type vChanDef struct {
 	value   int64
 }
 
+// vOp is a graph maintenance event (see applyOp).
+type vOp struct {
+	kind         string // connect | disconnect | delete | prune_nodes
+	spend        []int  // connect: channels whose funding output the block spends
+	spendUnknown bool   // connect: the block also spends an output that is no known channel
+	remine       bool   // connect: re-mine the funding block a re-org removed from this height
+	ch           int    // delete: channel index
+	zombie       bool   // delete: markZombie
+	strict       bool   // delete: strictZombiePruning
+	missing      bool   // delete: a channel id that is not in the graph
+}
+
+// vEvent: either a gossip message or a graph maintenance event.
+type vEvent struct {
+	m   lnwire.Message
+	tag string
+	op  *vOp
+}
+
 type vGen struct {
-	kind  string
-	// script: messages to send first (setup phase of the "restart" kind)
-	script []func() (lnwire.Message, string)
+	kind string
+	// script: events to run first (setup phase of the "restart" and "history" kinds)
+	script []func() vEvent
+	// tail: after the script of a "history" case: random graph events mixed
+	// with messages aimed at the channels / nodes they touched
+	tail bool
 	// postLeft > 0: the gossiper was just restarted on a cold store; bias
 	// towards re-gossiped / duplicate / superseded messages
 	postLeft int
 	// stepNow: wall clock (unix seconds) recorded for the step being generated
 	stepNow uint32
-	r     *vrng
-	c     *vCase
-	nk    []*btcec.PrivateKey
-	bk    []*btcec.PrivateKey
-	chans []vChanDef
-	now   uint32
-	base  uint32
+	r       *vrng
+	c       *vCase
+	nk      []*btcec.PrivateKey
+	bk      []*btcec.PrivateKey
+	chans   []vChanDef
+	now     uint32
+	base    uint32
 	// last timestamp generated per (chan, dir) and per node, and the variant
 	// used for the last properly signed update (for keep-alives)
 	cuTs  map[[2]int]uint32
 	cuVar map[[2]int]uint32
 	naTs  map[int]uint32
 	sent  []lnwire.Message
-	// pending[scid][dir] = content hash of the one message allowed to wait in
-	// the premature-update cache for that direction
-	pending map[uint64]map[uint8]string
+	// pending[scid][dir]: the distinct updates waiting in the premature-update
+	// cache for that direction
+	pending map[uint64]map[uint8][]vParked
+	// wrongTs: clock of the updates signed by the wrong channel party (always
+	// ahead of the owners' clocks, see mayPark)
+	wrongTs uint32
+}
+
+type vParked struct {
+	hash   string
+	signer int
+	ts     uint32
 }
 
 func (g *vGen) sortedPair(a, b int) [2]int {
@@ -1067,6 +1246,22 @@ func (g *vGen) setup() {
 		d.value = []int64{1000, 500, 499, 501, 100000, 1000, 500, 1, 0,
 			2_100_000_000_000_000}[r.intn(10)]
 		h := int64(100 + i)
+		if g.kind == "history" {
+			// funding blocks at the chain tip: a re-org of 1-3 blocks removes
+			// them.  Channel 0 connects nodes 0 and 1 and is always genuine.
+			h = int64(vBestHeight - i)
+			if i == 0 {
+				d.n = g.sortedPair(0, 1)
+			} else {
+				// node 0 has no other channel: it always loses its last
+				// channel when channel 0 goes
+				a := 1 + r.intn(3)
+				d.n = g.sortedPair(a, 1+(a+r.intn(2))%3)
+			}
+			if i == 0 || r.intn(5) != 0 {
+				d.envKind = "good"
+			}
+		}
 		d.scid = lnwire.ShortChannelID{BlockHeight: uint32(h), TxIndex: 1, TxPosition: 0}
 		_, good, _ := input.GenFundingPkScript(
 			g.bk[d.b[0]].PubKey().SerializeCompressed(),
@@ -1110,7 +1305,7 @@ func (g *vGen) setup() {
 	g.cuTs = map[[2]int]uint32{}
 	g.cuVar = map[[2]int]uint32{}
 	g.naTs = map[int]uint32{}
-	g.pending = map[uint64]map[uint8]string{}
+	g.pending = map[uint64]map[uint8][]vParked{}
 }
 
 func (g *vGen) validCA(i int) *lnwire.ChannelAnnouncement1 {
@@ -1515,11 +1710,12 @@ func (g *vGen) freshTs(slot [2]int) uint32 {
 
 // boundaryCU: a properly signed update by the right node whose ONE interesting
 // field sits at (or one off) a comparison of the update validation:
-//   max_htlc vs capacity in MILLIsatoshi (cap-1, cap, cap+1, cap+500, cap+999,
-//   cap+1000), max_htlc vs min_htlc (min-1, min, min+1), max_htlc = 0, the
-//   message-flag bit gating max_htlc, channel-flag bits around the direction
-//   bit, timestamp vs the STORED timestamp of its direction (-1, 0, +1),
-//   timestamp vs now + prune expiry (future skew), zero timestamp.
+//
+//	max_htlc vs capacity in MILLIsatoshi (cap-1, cap, cap+1, cap+500, cap+999,
+//	cap+1000), max_htlc vs min_htlc (min-1, min, min+1), max_htlc = 0, the
+//	message-flag bit gating max_htlc, channel-flag bits around the direction
+//	bit, timestamp vs the STORED timestamp of its direction (-1, 0, +1),
+//	timestamp vs now + prune expiry (future skew), zero timestamp.
 func (g *vGen) boundaryCU(i int, dir uint8) (*lnwire.ChannelUpdate1, string) {
 	r := g.r
 	d := g.chans[i]
@@ -1688,10 +1884,7 @@ func (g *vGen) next(step int, kind string) (lnwire.Message, string) {
 			w = 30 + r.intn(10)
 			kind = "mixed"
 		}
-		if len(g.script) > 0 && tries == 0 {
-			m, tag = g.script[0]()
-			g.script = g.script[1:]
-		} else if g.postLeft > 0 && tries <= 40 && (kind == "restart" || r.intn(10) < 6) {
+		if g.postLeft > 0 && tries <= 40 && (kind == "restart" || r.intn(10) < 6) {
 			m, tag = g.postRestart()
 		} else if kind == "burst" && step == 0 {
 			m, tag = g.validCA(0), "ca_valid"
@@ -1757,29 +1950,460 @@ func (g *vGen) next(step int, kind string) (lnwire.Message, string) {
 			continue
 		}
 		// Replays of premature updates run concurrently inside lnd; keep
-		// their outcome order-independent: per (scid, direction) only
-		// byte-identical copies of ONE update may wait for the channel.
-		if u, ok := m.(*lnwire.ChannelUpdate1); ok {
-			s := u.ShortChannelID.ToUint64()
-			dir := uint8(u.ChannelFlags & 1)
-			if !g.c.chanKnown(s) {
-				h := vMsgHash(u)
-				if g.pending[s] == nil {
-					g.pending[s] = map[uint8]string{}
-				}
-				if prev, ok := g.pending[s][dir]; ok && prev != h {
-					continue
-				}
-				g.pending[s][dir] = h
-			}
+		// their outcome order-independent: per (scid, direction) the parked
+		// updates are byte-identical copies of ONE update per signing key
+		// (a direction has one owner key in whatever announcement arrives, so
+		// at most one of them can pass validation; updates no key of the
+		// case verifies are never valid).
+		if u, ok := m.(*lnwire.ChannelUpdate1); ok && !g.mayPark(u) {
+			continue
+		}
+		if a, ok := m.(*lnwire.ChannelAnnouncement1); ok && g.holdCA(a) {
+			continue
 		}
 		return m, tag
 	}
 }
 
+// signerOf: index of the key of the case (node keys, then our own key) under
+// which the update's signature verifies, -1 if none.
+func (g *vGen) signerOf(u *lnwire.ChannelUpdate1) int {
+	data, err := u.DataToSign()
+	if err != nil {
+		return -1
+	}
+	dg := chainhash.DoubleHashB(data)
+	for i, k := range g.nk {
+		if vVerify(vPub33(k), dg, u.Signature) {
+			return i
+		}
+	}
+	if vVerify(vPub33(g.c.f.selfPriv), dg, u.Signature) {
+		return len(g.nk)
+	}
+	return -1
+}
+
+// expectedOwner: index of the node key that owns direction dir of the channel
+// the generator defined with this scid (-1: no such channel).
+func (g *vGen) expectedOwner(scid uint64, dir uint8) int {
+	for _, d := range g.chans {
+		if d.scid.ToUint64() == scid {
+			return d.n[dir]
+		}
+	}
+	return -1
+}
+
+// mayPark: may this update be sent although its channel is unknown (so that it
+// may end up in the premature-update cache)?  lnd replays the parked updates
+// of a channel concurrently, and it checks staleness BEFORE the signature; the
+// verdicts are independent of the replay order iff, per (scid, direction),
+// at most one distinct update can be valid and every update that cannot be
+// valid carries a timestamp newer than the valid one:
+//   - updates no key of the case verifies are never valid: free;
+//   - a scid of a channel defined by the generator: one distinct update signed
+//     by the owner of the direction, any number signed by other keys provided
+//     their timestamps are newer than the owner's (announcements naming other
+//     node keys for that scid are held back meanwhile, see holdCA);
+//   - any other scid: byte-identical copies of ONE update.
+func (g *vGen) mayPark(u *lnwire.ChannelUpdate1) bool {
+	s := u.ShortChannelID.ToUint64()
+	if g.c.chanKnown(s) {
+		return true
+	}
+	sg := g.signerOf(u)
+	if sg < 0 {
+		return true
+	}
+	dir := uint8(u.ChannelFlags & 1)
+	h := vMsgHash(u)
+	exp := g.expectedOwner(s, dir)
+	for _, p := range g.pending[s][dir] {
+		if p.hash == h {
+			continue
+		}
+		switch {
+		case exp < 0:
+			return false
+		case sg == exp && p.signer == exp:
+			return false
+		case sg == exp && p.ts <= u.Timestamp:
+			return false
+		case sg != exp && p.signer == exp && u.Timestamp <= p.ts:
+			return false
+		}
+	}
+	return true
+}
+
+// holdCA: an announcement that names other node keys for the scid of a defined
+// channel is held back while several distinct updates wait for that scid.
+func (g *vGen) holdCA(a *lnwire.ChannelAnnouncement1) bool {
+	s := a.ShortChannelID.ToUint64()
+	multi := false
+	for _, l := range g.pending[s] {
+		if len(l) > 1 {
+			multi = true
+		}
+	}
+	if !multi {
+		return false
+	}
+	for _, d := range g.chans {
+		if d.scid.ToUint64() == s {
+			return a.NodeID1 != vPub33(g.nk[d.n[0]]) || a.NodeID2 != vPub33(g.nk[d.n[1]])
+		}
+	}
+	return false
+}
+
+// parked records that the update now waits in the premature-update cache.
+func (g *vGen) parked(u *lnwire.ChannelUpdate1) {
+	s := u.ShortChannelID.ToUint64()
+	dir := uint8(u.ChannelFlags & 1)
+	sg := g.signerOf(u)
+	if sg < 0 {
+		return
+	}
+	h := vMsgHash(u)
+	if g.pending[s] == nil {
+		g.pending[s] = map[uint8][]vParked{}
+	}
+	for _, p := range g.pending[s][dir] {
+		if p.hash == h {
+			return
+		}
+	}
+	g.pending[s][dir] = append(g.pending[s][dir], vParked{h, sg, u.Timestamp})
+}
+
 func (c *vCase) chanKnown(scid uint64) bool {
 	_, _, _, err := c.f.builder.GetChannelByID(lnwire.NewShortChanIDFromInt(scid))
 	return err == nil
+}
+
+// ---------------------------------------------------------------------------
+// histories of graph maintenance events ("history" kind)
+
+const (
+	vNumRemovals  = 5 // how channel 0 leaves the graph
+	vNumSweeps    = 5 // what follows before the probes
+	vNumTemplates = vNumRemovals * vNumSweeps
+	vNumCUPattern = 6
+	vAliasStartID = uint64(vAliasStart) << 40 // aliasmgr.StartingAlias
+)
+
+var vRemovalNames = []string{"reorg", "delete", "delete_zombie", "delete_zombie_strict", "spend"}
+var vSweepNames = []string{"none", "block_empty", "block_closing_other", "prune_nodes", "restart"}
+
+// fundingOutpoint of channel i as recorded on the harness chain (also when
+// its block is currently re-orged out).
+func (g *vGen) fundingOutpoint(i int) (wire.OutPoint, bool) {
+	d := g.chans[i]
+	ch := g.c.f.chain
+	ch.mu.Lock()
+	defer ch.mu.Unlock()
+	b, ok := ch.blocks[int64(d.scid.BlockHeight)]
+	if !ok {
+		b, ok = ch.orphans[int64(d.scid.BlockHeight)]
+	}
+	if !ok || b.block == nil || int(d.scid.TxIndex) >= len(b.block.Transactions) {
+		return wire.OutPoint{}, false
+	}
+	tx := b.block.Transactions[d.scid.TxIndex]
+	if int(d.scid.TxPosition) >= len(tx.TxOut) {
+		return wire.OutPoint{}, false
+	}
+	return wire.OutPoint{Hash: tx.TxHash(), Index: uint32(d.scid.TxPosition)}, true
+}
+
+// applyOp performs a graph maintenance event on the REAL Builder / graph
+// store and returns its abstract description.
+func (g *vGen) applyOp(o *vOp) map[string]any {
+	f := g.c.f
+	ctx := context.Background()
+	switch o.kind {
+	case "connect":
+		var ops []wire.OutPoint
+		scids := []uint64{}
+		for _, i := range o.spend {
+			if op, ok := g.fundingOutpoint(i); ok {
+				ops = append(ops, op)
+				scids = append(scids, g.chans[i].scid.ToUint64())
+			}
+		}
+		if o.spendUnknown {
+			var h chainhash.Hash
+			h[0], h[5] = 0xee, byte(len(ops))
+			ops = append(ops, wire.OutPoint{Hash: h, Index: 3})
+		}
+		h, remined := f.connectBlock(ops, o.remine)
+		return map[string]any{"t": "op", "op": "connect", "h": h, "spent": scids,
+			"remined": remined, "unknown_spend": o.spendUnknown}
+	case "disconnect":
+		h := f.disconnectTip()
+		return map[string]any{"t": "op", "op": "disconnect", "h": h,
+			"lo": uint64(h) << 40, "hi": vAliasStartID}
+	case "delete":
+		scid := g.chans[o.ch].scid.ToUint64()
+		if o.missing {
+			scid = (uint64(700+o.ch) << 40) | 1<<16
+		}
+		g.c.scids[scid] = true
+		err := f.db.DeleteChannelEdges(ctx, lnwire.GossipVersion1, o.strict, o.zombie, scid)
+		if err != nil && !errors.Is(err, graphdb.ErrEdgeNotFound) {
+			f.t.Fatalf("DeleteChannelEdges: %v", err)
+		}
+		return map[string]any{"t": "op", "op": "delete", "scid": scid, "zombie": o.zombie,
+			"strict": o.strict, "notfound": err != nil}
+	case "prune_nodes":
+		if err := f.db.PruneGraphNodes(ctx); err != nil {
+			f.t.Fatalf("PruneGraphNodes: %v", err)
+		}
+		return map[string]any{"t": "op", "op": "prune_nodes"}
+	}
+	panic("unknown op " + o.kind)
+}
+
+// cuAt: update for (channel i, dir) signed by the node that owns direction
+// signerDir of that channel, with the given timestamp.
+func (g *vGen) cuAt(i int, dir, signerDir uint8, ts uint32) *lnwire.ChannelUpdate1 {
+	d := g.chans[i]
+	slot := [2]int{i, int(dir)}
+	v := uint32(g.r.intn(1000))
+	if dir == signerDir && ts > g.cuTs[slot] {
+		g.cuTs[slot] = ts
+		g.cuVar[slot] = v
+	}
+	u := vMakeCU(d.scid, g.nk[d.n[signerDir]], dir, ts, v)
+	if cm := uint64(d.value) * 1000; cm != 0 && cm < uint64(u.HtlcMaximumMsat) {
+		u.HtlcMinimumMsat, u.HtlcMaximumMsat = 0, lnwire.MilliSatoshi(cm)
+		u.Signature = vSign(g.nk[d.n[signerDir]], u)
+	}
+	return u
+}
+
+// freshCU: strictly newer than everything generated for the slot; signed by
+// the owner of the direction (right) or by the other channel party (wrong).
+func (g *vGen) freshCU(i int, dir uint8, right bool) (*lnwire.ChannelUpdate1, string) {
+	slot := [2]int{i, int(dir)}
+	ts := g.cuTs[slot] + 1 + uint32(g.r.intn(20))
+	if g.cuTs[slot] == 0 {
+		ts = g.base + uint32(g.r.intn(1000))
+	}
+	if right {
+		return g.cuAt(i, dir, dir, ts), fmt.Sprintf("cu_h_owner_dir%d", dir)
+	}
+	// updates signed by the wrong channel party run on their own clock, a day
+	// ahead of everything the owners sign (see mayPark) and still in the past
+	if g.wrongTs == 0 {
+		g.wrongTs = g.base + 2*86400
+	}
+	g.wrongTs += 1 + uint32(g.r.intn(20))
+	return g.cuAt(i, dir, 1-dir, g.wrongTs), fmt.Sprintf("cu_h_wrongdir_signer_dir%d", dir)
+}
+
+// freshNA: properly signed announcement of node n, strictly newer than
+// anything generated or stored for it.
+func (g *vGen) freshNA(n int) (*lnwire.NodeAnnouncement1, string) {
+	last, exists, err := g.c.f.db.HasV1Node(context.Background(), vPub33(g.nk[n]))
+	ts := g.naTs[n]
+	if err == nil && exists && last.Unix() > int64(ts) {
+		ts = uint32(last.Unix())
+	}
+	if ts == 0 {
+		ts = g.base + uint32(g.r.intn(1000))
+	}
+	ts += 1 + uint32(g.r.intn(30))
+	g.naTs[n] = ts
+	return vMakeNA(g.nk[n], ts, g.r.intn(200)), "na_h_fresh"
+}
+
+func vMsgEv(m lnwire.Message, tag string) vEvent { return vEvent{m: m, tag: tag} }
+
+// historyScript lays out one template:
+//
+//	setup (all channels announced, update pattern on channel 0, node
+//	announcements of its endpoints) -> removal of channel 0 -> sweep event ->
+//	probes (node announcements of both endpoints, updates for both directions
+//	signed by the owner and by the other party, the announcement again, ...).
+//
+// Returns the index of the step before which lnd restarts (-1: none).
+func (g *vGen) historyScript(tmpl, pattern int) int {
+	r := g.r
+	removal, sweep := tmpl%vNumRemovals, tmpl/vNumRemovals
+	add := func(f func() vEvent) { g.script = append(g.script, f) }
+	for i := range g.chans {
+		i := i
+		add(func() vEvent { return vMsgEv(g.validCA(i), "ca_valid") })
+	}
+	t0 := g.base + uint32(r.intn(1000))
+	type pu struct {
+		dir uint8
+		dt  uint32
+	}
+	var pat []pu
+	switch pattern {
+	case 0: // no policy at all
+	case 1: // edge 2 is the older side
+		pat = []pu{{0, 50}, {1, 10}}
+	case 2: // edge 2 missing
+		pat = []pu{{0, 50}}
+	case 3: // edge 1 missing
+		pat = []pu{{1, 50}}
+	case 4: // edge 1 is the older side
+		pat = []pu{{0, 10}, {1, 50}}
+	default: // same age
+		pat = []pu{{1, 30}, {0, 30}}
+	}
+	for _, x := range pat {
+		x := x
+		add(func() vEvent {
+			return vMsgEv(g.cuAt(0, x.dir, x.dir, t0+x.dt), fmt.Sprintf("cu_h_setup_dir%d", x.dir))
+		})
+	}
+	ends := g.chans[0].n
+	for _, n := range []int{ends[0], ends[1]} {
+		n := n
+		if r.intn(4) != 0 {
+			add(func() vEvent { m, t := g.freshNA(n); return vMsgEv(m, t) })
+		}
+	}
+	if len(g.chans) > 1 && r.bool() {
+		add(func() vEvent { m, t := g.validCU(1, uint8(r.intn(2))); return vMsgEv(m, t) })
+	}
+	// removal of channel 0
+	switch removal {
+	case 0:
+		add(func() vEvent { return vEvent{tag: "op_disconnect", op: &vOp{kind: "disconnect"}} })
+	case 1, 2, 3:
+		z, st := removal >= 2, removal == 3
+		add(func() vEvent {
+			return vEvent{tag: "op_delete", op: &vOp{kind: "delete", ch: 0, zombie: z, strict: st}}
+		})
+	default:
+		add(func() vEvent {
+			return vEvent{tag: "op_connect", op: &vOp{kind: "connect", spend: []int{0}}}
+		})
+	}
+	// sweep event
+	restartAt := -1
+	remine := r.bool()
+	switch sweep {
+	case 0:
+	case 1:
+		add(func() vEvent {
+			return vEvent{tag: "op_connect", op: &vOp{kind: "connect", remine: remine,
+				spendUnknown: r.bool()}}
+		})
+	case 2:
+		add(func() vEvent {
+			o := &vOp{kind: "connect", remine: remine}
+			if len(g.chans) > 1 {
+				o.spend = []int{1 + r.intn(len(g.chans)-1)}
+			}
+			return vEvent{tag: "op_connect", op: o}
+		})
+	case 3:
+		add(func() vEvent { return vEvent{tag: "op_prune_nodes", op: &vOp{kind: "prune_nodes"}} })
+	default:
+		restartAt = len(g.script)
+	}
+	// probes
+	na := func(n int) func() vEvent {
+		return func() vEvent { m, t := g.freshNA(n); return vMsgEv(m, t) }
+	}
+	cu := func(dir uint8, right bool) func() vEvent {
+		return func() vEvent { m, t := g.freshCU(0, dir, right); return vMsgEv(m, t) }
+	}
+	add(na(ends[r.intn(2)]))
+	first := r.bool() // owner first / other party first
+	d0 := uint8(r.intn(2))
+	add(cu(d0, first))
+	add(cu(d0, !first))
+	add(na(ends[0]))
+	add(na(ends[1]))
+	add(cu(1-d0, !first))
+	add(cu(1-d0, first))
+	add(func() vEvent { return vMsgEv(g.validCA(0), "ca_regossip") })
+	add(na(ends[r.intn(2)]))
+	add(cu(uint8(r.intn(2)), true))
+	return restartAt
+}
+
+// randomOp: a random graph maintenance event for the tail of a history.
+func (g *vGen) randomOp() vEvent {
+	r := g.r
+	nch := len(g.chans)
+	f := g.c.f
+	w := r.intn(100)
+	f.chain.mu.Lock()
+	best := f.chain.best
+	f.chain.mu.Unlock()
+	switch {
+	case w < 40 || (w < 60 && best <= vBestHeight-3):
+		o := &vOp{kind: "connect", remine: r.bool(), spendUnknown: r.intn(4) == 0}
+		for i := 0; i < nch; i++ {
+			if r.intn(4) == 0 {
+				o.spend = append(o.spend, i)
+			}
+		}
+		return vEvent{tag: "op_connect", op: o}
+	case w < 60:
+		return vEvent{tag: "op_disconnect", op: &vOp{kind: "disconnect"}}
+	case w < 90:
+		z := r.intn(3) != 0
+		return vEvent{tag: "op_delete", op: &vOp{kind: "delete", ch: r.intn(nch), zombie: z,
+			strict: z && r.bool(), missing: r.intn(8) == 0}}
+	default:
+		return vEvent{tag: "op_prune_nodes", op: &vOp{kind: "prune_nodes"}}
+	}
+}
+
+// nextEvent: the next event of the case.
+func (g *vGen) nextEvent(step int, kind string) vEvent {
+	if len(g.script) > 0 {
+		ev := g.script[0]()
+		g.script = g.script[1:]
+		if ev.op != nil {
+			return ev
+		}
+		if m := vClone(ev.m); m != nil {
+			ev.m = m
+			return ev
+		}
+	}
+	if g.tail {
+		r := g.r
+		nch := len(g.chans)
+		w := r.intn(100)
+		switch {
+		case w < 35:
+			return g.randomOp()
+		case w < 75:
+			var m lnwire.Message
+			tag := ""
+			switch r.intn(6) {
+			case 0, 1:
+				m, tag = g.freshNA(r.intn(4))
+			case 2:
+				m, tag = g.validCA(r.intn(nch)), "ca_regossip"
+			case 3:
+				m, tag = g.freshCU(r.intn(nch), uint8(r.intn(2)), false)
+			default:
+				m, tag = g.freshCU(r.intn(nch), uint8(r.intn(2)), true)
+			}
+			if u, ok := m.(*lnwire.ChannelUpdate1); !ok || g.mayPark(u) {
+				if c := vClone(m); c != nil {
+					return vEvent{m: c, tag: tag}
+				}
+			}
+		}
+		kind = "mixed"
+	}
+	m, tag := g.next(step, kind)
+	return vEvent{m: m, tag: tag}
 }
 
 // ---------------------------------------------------------------------------
@@ -1795,7 +2419,7 @@ func TestVerifGossip(t *testing.T) {
 	out := vOpenOut()
 	defer out.close()
 	master := vNewRng(vSeed())
-	ncases := vCases(150, 2500)
+	ncases := vCases(190, 3000)
 	only := int(vEnvInt("VERIF_CASE_ONLY", -1))
 
 	t.Run("cases", func(t *testing.T) {
@@ -1819,6 +2443,18 @@ func vRunCase(t *testing.T, r *vrng, ci int) map[string]any {
 	c := &vCase{f: f, ids: newVIDs(), keys: map[[33]byte]bool{}, scids: map[uint64]bool{}}
 	kind := []string{"mixed", "mixed", "ordered", "ordered", "ordered", "burst",
 		"restart", "restart", "restart", "restart"}[r.intn(10)]
+	// every 4th case (2nd on sqlite) is a history of graph maintenance events; the templates
+	// (removal kind x sweep kind) and the update patterns are enumerated
+	tmpl, pattern := -1, -1
+	every := 4
+	if vBackendName == "sqlite" {
+		every = 2 // the sqlite batch is small: half of it are histories
+	}
+	if ci%every == every-1 {
+		kind = "history"
+		k := ci/every + int(vSeed()%1000)*11
+		tmpl, pattern = k%vNumTemplates, (ci/every)%vNumCUPattern
+	}
 	g := &vGen{r: r, c: c, kind: kind}
 	g.setup()
 	nsteps := 8 + r.intn(14)
@@ -1826,28 +2462,34 @@ func vRunCase(t *testing.T, r *vrng, ci int) map[string]any {
 		nsteps = 16 + r.intn(6)
 	}
 	restartAt := map[int]bool{}
+	if kind == "history" {
+		if at := g.historyScript(tmpl, pattern); at >= 0 {
+			restartAt[at] = true
+		}
+		nsteps = len(g.script) + 4 + r.intn(6)
+	}
 	if kind == "restart" {
 		// setup: every channel announced, both directions get policies (and
 		// a few newer ones), then restart(s) on the populated graph
 		for i := range g.chans {
 			i := i
-			g.script = append(g.script, func() (lnwire.Message, string) {
-				return g.validCA(i), "ca_valid"
+			g.script = append(g.script, func() vEvent {
+				return vMsgEv(g.validCA(i), "ca_valid")
 			})
 		}
 		for rep := 0; rep < 1+r.intn(2); rep++ {
 			for i := range g.chans {
 				for _, d := range []uint8{uint8(r.intn(2)), 2} {
 					i, d := i, d
-					g.script = append(g.script, func() (lnwire.Message, string) {
+					g.script = append(g.script, func() vEvent {
 						if d == 2 {
 							// the direction not yet served in this round
 							if g.cuTs[[2]int{i, 0}] <= g.cuTs[[2]int{i, 1}] {
-								return g.validCU(i, 0)
+								return vMsgEv(g.validCU(i, 0))
 							}
-							return g.validCU(i, 1)
+							return vMsgEv(g.validCU(i, 1))
 						}
-						return g.validCU(i, d)
+						return vMsgEv(g.validCU(i, d))
 					})
 				}
 			}
@@ -1883,24 +2525,52 @@ func vRunCase(t *testing.T, r *vrng, ci int) map[string]any {
 			f.restart()
 			restarted = true
 			pend = nil
-			g.pending = map[uint64]map[uint8]string{}
-			g.postLeft = 6
+			g.pending = map[uint64]map[uint8][]vParked{}
+			if kind != "history" {
+				g.postLeft = 6
+			}
 		}
 		now := time.Now().Unix()
 		g.stepNow = uint32(now)
-		m, tag := g.next(si, kind)
+		if kind == "history" && len(g.script) == 0 {
+			g.tail = true
+		}
+		ev := g.nextEvent(si, kind)
 		if g.postLeft > 0 {
 			g.postLeft--
 		}
-		g.sent = append(g.sent, m)
 		pi := r.intn(4)
 		if pi > 2 {
 			pi = 0
 		}
 		peer := peers[pi]
+		if ev.op != nil {
+			// a graph maintenance event: no message, no verdict
+			desc := g.applyOp(ev.op)
+			desc["cid"] = fmt.Sprintf("op%d", si)
+			f.flush()
+			snap := c.snapshot()
+			sj := fmt.Sprint(snap)
+			st := map[string]any{
+				"i": si, "restart": restarted, "tag": ev.tag, "peer": c.kid(vPub33FromPub(peer.pk)),
+				"now": now, "m": desc, "orc": map[string]any{}, "res": "ok", "resolved": nil,
+				"best": f.gossipBest(),
+				"ban": []uint64{f.banScore(vPub33FromPub(peers[0].pk)), f.banScore(vPub33FromPub(peers[1].pk)),
+					f.banScore(vPub33FromPub(peers[2].pk))},
+			}
+			if sj != prevJSON {
+				st["g"] = snap
+				prevJSON = sj
+			}
+			steps = append(steps, st)
+			continue
+		}
+		m, tag := ev.m, ev.tag
+		g.sent = append(g.sent, m)
 		desc, orc := c.describe(m)
 		desc["cid"] = vMsgHash(m)
 
+		gbest := f.gossipBest()
 		fut := f.g.ProcessRemoteAnnouncement(ctx, m, peer)
 		var inCache func() bool
 		var scid uint64
@@ -1921,6 +2591,7 @@ func vRunCase(t *testing.T, r *vrng, ci int) map[string]any {
 		}
 		verdict := f.await(fut, inCache)
 		if verdict == "pending" {
+			g.parked(m.(*lnwire.ChannelUpdate1))
 			p := &vPend{step: si, scid: scid, done: make(chan string, 1)}
 			go func() {
 				ctx2, cancel := context.WithTimeout(ctx, 60*time.Second)
@@ -1955,6 +2626,7 @@ func vRunCase(t *testing.T, r *vrng, ci int) map[string]any {
 				}
 				pend = rest
 				f.waitIdle()
+				delete(g.pending, s)
 			}
 		}
 		f.flush()
@@ -1962,7 +2634,7 @@ func vRunCase(t *testing.T, r *vrng, ci int) map[string]any {
 		sj := fmt.Sprint(snap)
 		st := map[string]any{
 			"i": si, "restart": restarted, "tag": tag, "peer": c.kid(vPub33FromPub(peer.pk)), "now": now,
-			"m": desc, "orc": orc, "res": verdict, "resolved": resolved,
+			"m": desc, "orc": orc, "res": verdict, "resolved": resolved, "best": gbest,
 			"ban": []uint64{f.banScore(vPub33FromPub(peers[0].pk)), f.banScore(vPub33FromPub(peers[1].pk)),
 				f.banScore(vPub33FromPub(peers[2].pk))},
 		}
@@ -1994,8 +2666,9 @@ func vRunCase(t *testing.T, r *vrng, ci int) map[string]any {
 			c.kid(vPub33FromPub(peers[2].pk))},
 		"best": vBestHeight, "alias_start": vAliasStart,
 		"rebroadcast": int64(vRebroadcast / time.Second),
-		"prune": int64(vPruneExpiry / time.Second),
-		"burst": DefaultMaxChannelUpdateBurst, "backend": vBackendName, "restarts": f.restarts,
+		"prune":       int64(vPruneExpiry / time.Second),
+		"burst":       DefaultMaxChannelUpdateBurst, "backend": vBackendName, "restarts": f.restarts,
+		"template": tmpl, "pattern": pattern,
 		"steps": steps, "bcast": bc, "still_pending": left,
 	}
 }
